@@ -189,7 +189,7 @@ def rform(rng, p, q, squares=True, distinct=False):
     n = p + q
     Qm = cayley(rng, n, 3, sparse=0.2)
     while True:
-        vals = [F(rng.randint(1, 6), rng.randint(1, 3)) for _ in range(n)]
+        vals = [F(rng.randint(1, 6), rng.randint(1, 3)) if rng.random() < 0.7 else F(1, rng.randint(4, 20)) for _ in range(n)]
         if not distinct or len(set(vals)) == n:
             break
     D = [(v * v if squares else v) * (1 if i < p else -1) for i, v in enumerate(vals)]
